@@ -244,6 +244,13 @@ pub fn run(cfg: &Cfg, rep: &mut Report) {
             use scpi_contrib::scpi1999::NumericValue;
             let r = NumericValue::Value(11i32).finish_with(10, 0);
             expect_class(ctx, "numeric_value 11 resolved against [0,10]", "out-of-range", r.err().map(|e| e.get_code()), false);
+            // values only floats have: not within any bounds, a value fault like any other
+            let r = NumericValue::Value(f32::NAN).finish_with(10.0, 0.0);
+            expect_class(ctx, "numeric_value NaN resolved against [0,10]", "out-of-range", r.err().map(|e| e.get_code()), false);
+            let r = NumericValue::Value(f64::INFINITY).build().max(10.0).min(0.0).finish();
+            expect_class(ctx, "numeric_value +inf resolved against [0,10]", "out-of-range", r.err().map(|e| e.get_code()), false);
+            let r = NumericValue::Value(f64::NAN).build().max(10.0).finish();
+            expect_class(ctx, "numeric_value NaN resolved against (-max,10]", "out-of-range", r.err().map(|e| e.get_code()), false);
         }
         ctx.sample(|| jobj(&[("cases", jstr("mnemonic/chardata/suffix of 13+ chars, unterminated string, non-ascii, truncated/malformed block, misplaced : and , missing separator, wrong element type per target, out-of-range / not-in-set / buffer-exhausted value faults")), ("too_long_word", jbytes(&w))]));
     });
